@@ -43,10 +43,12 @@ def common_classes(F: Facts):
         cl.append('warm')
     if F.sc.get('wal'):
         cl.append('wal-bus')
-        if any(r['k'] in ('disp',) and r.get('ok') and F.out.get('payload_of', {}).get(str(r['ev']), F.out.get('payload_of', {}).get(r['ev'])) == 1 for r in F.tr):
+        if any(r['k'] in ('disp',) and r.get('ok') and F.out.get('payload_of', {}).get(str(r['ev']), F.out.get('payload_of', {}).get(r['ev'])) in (1, 3) for r in F.tr):
             cl.append('wal:unserialisable-event-accepted')
     if F.sc.get('stops'):
         cl.append('stop-sub-family')
+    if F.sc.get('shadow'):
+        cl.append('second-bus-requested-with-a-taken-name')
     n = len(F.accepted)
     cl.append('events:' + ('1' if n <= 1 else '2-5' if n <= 5 else '6-20' if n <= 20 else '21+'))
     return cl
@@ -133,7 +135,7 @@ def with_stop(base, one_in=5):
 
 def with_wal(base, one_in=6):
     """Scenarios of `base` in which, one time in `one_in`, some buses persist to a write-ahead log (wal_path; the anyio worker thread is
-    replaced by a deterministic inline call) and some events carry a payload that cannot be serialised to JSON (a lone surrogate):
+    replaced by a deterministic inline call) and some events carry a payload that cannot be serialised to JSON (a lone surrogate, a callable):
     persistence is best-effort and must never change delivery, completion or idleness."""
     from hypothesis import strategies as st
 
@@ -146,13 +148,13 @@ def with_wal(base, one_in=6):
         sc['buses'] = [dict(b, wal=draw(st.integers(0, 2)) != 0) for b in sc['buses']]
         if not any(b['wal'] for b in sc['buses']):
             sc['buses'][0]['wal'] = True
-        sc['payloads'] = [{'txt': 'plain'}, {'txt': 'a\ud800b'}, {'blob': {'k': [1, None, 'x']}}]
+        sc['payloads'] = [{'txt': 'plain'}, {'txt': 'a\ud800b'}, {'blob': {'k': [1, None, 'x']}}, {'blob': '__callable__'}]
 
         def flag(op, pos):
             op = list(op)
             while len(op) <= pos:
                 op.append({})
-            op[pos] = dict(op[pos] or {}, pl=draw(st.sampled_from([0, 1, 1, 2])))
+            op[pos] = dict(op[pos] or {}, pl=draw(st.sampled_from([0, 1, 1, 2, 3, 3])))
             return op
 
         sc['actors'] = [[flag(op, 3) if op[0] == 'disp' else (flag(op, 4) if op[0] == 'burst' else op) for op in a] for a in sc['actors']]
